@@ -73,12 +73,14 @@ func checkManifest(files zipFiles, manifest *etree.Element) error {
 	if err := xml.Unmarshal(blob, &m); err != nil {
 		return fmt.Errorf("validation failed: %w", err)
 	}
+	covered := make(map[string]bool, len(m.References))
 	for _, ref := range m.References {
 		p := path.Join("./" + ref.URI)
 		i := strings.IndexByte(p, '?')
 		if i >= 0 {
 			p = p[:i]
 		}
+		covered[p] = true
 		zf := files[p]
 		if zf == nil {
 			return fmt.Errorf("validation failed: file not found: %s", p)
@@ -102,6 +104,12 @@ func checkManifest(files zipFiles, manifest *etree.Element) error {
 		}
 		if !hmac.Equal(refv, refCalc) {
 			return fmt.Errorf("validation failed: digest mismatch for %s: calculated %x, found %x", p, refCalc, refv)
+		}
+	}
+	// every part that is not signature metadata must be listed in the manifest
+	for name := range files {
+		if keepFile(name) && !covered[name] {
+			return fmt.Errorf("validation failed: part is not covered by the signature: %s", name)
 		}
 	}
 	return nil
